@@ -49,6 +49,30 @@ func init() {
 	h["Sum"] = func(o tt.Op) tt.Res { return rv(gogu.Sum(cp(o.L[0]))) }
 	h["SumBy"] = func(o tt.Op) tt.Res { return rv(gogu.SumBy(cp(o.L[0]), fnInt(o.F))) }
 	h["Mean"] = func(o tt.Op) tt.Res { return rv(gogu.Mean(cp(o.L[0]))) }
+	// 64-bit elements of large magnitude: op.l[0] are offsets r_i of one sign, a[0] = +1 / -1 is that sign; the
+	// elements are sign*2^53 + r_i.  Recorded is the result minus the base (Sum: minus n times the base), which
+	// is what the definition yields on the offsets alone; clamped so that it stays a 32-bit number for TLC.
+	big := func(o tt.Op) ([]int64, int64) {
+		base := int64(o.A[0]) * (int64(1) << 53)
+		s := make([]int64, len(o.L[0]))
+		for i, r := range o.L[0] {
+			s[i] = base + int64(r)
+		}
+		return s, base
+	}
+	clamp32 := func(d int64) int {
+		if d > 2000000000 {
+			return 2000000000
+		}
+		if d < -2000000000 {
+			return -2000000000
+		}
+		return int(d)
+	}
+	h["MeanBig"] = func(o tt.Op) tt.Res { s, b := big(o); return rv(clamp32(gogu.Mean(s) - b)) }
+	h["SumBig"] = func(o tt.Op) tt.Res { s, b := big(o); return rv(clamp32(gogu.Sum(s) - int64(len(s))*b)) }
+	h["MinBig"] = func(o tt.Op) tt.Res { s, b := big(o); return rv(clamp32(gogu.FindMin(s) - b)) }
+	h["MaxBig"] = func(o tt.Op) tt.Res { s, b := big(o); return rv(clamp32(gogu.FindMax(s) - b)) }
 	// int8 so that the type bounds are inside the enumerated window
 	h["Abs8"] = func(o tt.Op) tt.Res { return rv(int(gogu.Abs(int8(o.A[0])))) }
 	h["Clamp8"] = func(o tt.Op) tt.Res { return rv(int(gogu.Clamp(int8(o.A[0]), int8(o.A[1]), int8(o.A[2])))) }
@@ -134,6 +158,21 @@ func init() {
 				r.call(hop("FindMinBy", f, nil, s))
 				r.call(hop("FindMaxBy", f, nil, s))
 				r.call(hop("SumBy", f, nil, s))
+			}
+		}
+		// elements beyond 2^53 (where a float64 no longer holds every integer), all of one sign
+		for _, s := range slicesUpTo([]int{0, 1, 2, 5}, 3) {
+			if len(s) == 0 {
+				continue
+			}
+			for _, sign := range []int{1, -1} {
+				t := cp(s)
+				for i := range t {
+					t[i] *= sign
+				}
+				for _, fn := range []string{"MeanBig", "SumBig", "MinBig", "MaxBig"} {
+					r.call(hop(fn, "", []int{sign}, t))
+				}
 			}
 		}
 		// negative and mixed-sign inputs for the extremum / sum helpers
